@@ -467,3 +467,111 @@ def coords_model_verdict(path, leanio, limit=None):
     if any(v is None for v in vs):
         return None
     return "raises" if "raises" in vs else ("bad" if "bad" in vs else "good")
+
+
+# --------------------------------------------------------------------------- binary data / true extrema (Lean model TasteData)
+
+def vjson(x):
+    """a float as the driver's `Extrema.V`: "nan" | "inf" | "-inf" | exact [numerator, denominator]"""
+    from fractions import Fraction as Fr
+    x = float(x)
+    if x != x:
+        return "nan"
+    if x in (float("inf"), float("-inf")):
+        return "inf" if x > 0 else "-inf"
+    f = Fr(x)
+    return [f.numerator, f.denominator]
+
+
+def _level_dirs(tree, batch):
+    dirs = {}
+    for rel, data in tree.items():
+        d, fn = os.path.split(rel)
+        if not d:
+            continue
+        e = dirs.setdefault(d, {"cellh": None, "files": {}})
+        if fn == "Cell_H":
+            e["cellh"] = batch.key(data)
+        else:
+            e["files"][fn] = batch.key(data)
+    return dirs
+
+
+def data_model_verdict(path, leanio, limit=None):
+    """verdict ("good" | "bad" | "crash") of the Lean model of taste's binary-data validation (`TasteData.levelOK`: the
+    sequential scan of every binary file against the min / max rows sorted by offset, `np.isclose(equal_nan=True)` over the
+    exact values of the bit patterns) on the plotfile at `path`; None when the oracle cannot read the headers"""
+    from . import oracle
+    try:
+        P = oracle.parse(path, maxmins=True, data=False)
+    except Exception:
+        return None
+    tree = snapshot(path)
+    b = ModelBatch()
+    dirs = _level_dirs(tree, b)
+    L = P["finest"] if limit is None else limit
+    nf = len(P["fields"])
+    idx = []
+    for lv in range(L + 1):
+        lev = P["levels"][lv]
+        d = dirs.get(lev["cdir"])
+        if d is None or d["cellh"] is None:
+            return None
+        b.reqs.append({"op": "taste_data", "cellh": d["cellh"], "nfields": nf, "fields": list(range(nf)), "files": d["files"],
+                       "mins": [[vjson(x) for x in r] for r in lev["mins"]], "maxs": [[vjson(x) for x in r] for r in lev["maxs"]]})
+        idx.append(len(b.reqs) - 1)
+    rs = leanio.driver(b.reqs)
+    vs = [rs[i].get("verdict") for i in idx]
+    if any(v is None for v in vs):
+        return None
+    for v in vs:
+        if v != "good":
+            return v
+    return "good"
+
+
+def rows_model_check(path, leanio, limit=None):
+    """Are the min / max rows of every level header of the plotfile at `path` the *true extrema* of the stored data, as the Lean
+    model computes them from the bytes of every FAB (`TasteData.fabRows`: np.min / np.max over the exact values of the bit
+    patterns, NaN absorbing)?  Returns (number of rows compared, list of differences); None when the oracle cannot read it"""
+    from . import oracle
+    try:
+        P = oracle.parse(path, maxmins=True, data=False)
+    except Exception:
+        return None
+    tree = snapshot(path)
+    b = ModelBatch()
+    L = P["finest"] if limit is None else limit
+    want = []
+    for lv in range(L + 1):
+        lev = P["levels"][lv]
+        for fn in sorted({f for f, _ in lev["fab"]}):
+            data = tree.get(lev["cdir"] + "/" + fn)
+            if data is None:
+                return None
+            k = b.key(data)
+            b.reqs.append({"op": "fab_rows", "name": k})
+            want.append((lv, fn, len(b.reqs) - 1))
+    rs = leanio.driver(b.reqs)
+    n, bad = 0, []
+    for lv, fn, i in want:
+        lev = P["levels"][lv]
+        byidx = {(tuple(lo), tuple(hi)): bi for bi, (lo, hi) in enumerate(lev["idx"]) if lev["fab"][bi][0] == fn}
+        seen = set()
+        for fab in rs[i].get("fabs", []):
+            bi = byidx.get((tuple(fab["lo"]), tuple(fab["hi"])))
+            if bi is None:
+                continue
+            seen.add(bi)
+            if fab["rows"] is None:
+                bad.append(f"level {lv} box {bi}: the model has no extrema"); continue
+            for f, (mn, mx) in enumerate(fab["rows"]):
+                n += 1
+                hm, hM = vjson(lev["mins"][bi][f]), vjson(lev["maxs"][bi][f])
+                if hm != mn:
+                    bad.append(f"level {lv} box {bi} field {f}: recorded minimum {lev['mins'][bi][f]!r} is not the minimum of the stored values")
+                if hM != mx:
+                    bad.append(f"level {lv} box {bi} field {f}: recorded maximum {lev['maxs'][bi][f]!r} is not the maximum of the stored values")
+        for bi in set(byidx.values()) - seen:
+            bad.append(f"level {lv} box {bi}: not met by the sequential scan of {fn}")
+    return n, bad
